@@ -401,6 +401,17 @@ def check_fresh(chk, f, r, cons, rule='C16.F'):
             for x in v:
                 visit(x, path)
         elif isinstance(v, Sym):
+            root = v
+            while isinstance(root, Sym) and root.op in ('slice', 'typed') \
+                    and root.args:
+                root = root.args[0]
+            if isinstance(root, Sym) and root.op == 'extcall' and \
+                    root.args[0] == 'builtins.memoryview' and \
+                    T.mentions(root, lambda t: t.op == 'param'):
+                bad.append('%s is a memoryview onto the caller\'s buffer: '
+                           'it is not a value of its own (it changes with '
+                           'the buffer, and with it every other result '
+                           'viewing the same memory)' % path)
             for t in T.subterms(v):
                 for a in t.args:
                     if isinstance(a, T.Ref):
